@@ -436,6 +436,12 @@ structure Input where
       walk collects (a struct that is being expanded is not entered again), and all the back reference could promote is
       hidden by the shallower occurrence. The flag itself has no effect on the model -/
   cyclic : Bool := false
+  /-- paths of the EMBEDDED members tagged `map:"-"` (source / destination type, any depth). fields.go reads the tag of
+      named fields only (extractTopFiels: `len(f.Names) == 0` goes straight to expandIfStruct; extractStructFields: the
+      `Embedded()` branch comes before the tag test), so the lists have no effect on the plan: the promoted fields of a
+      tagged embedded struct are mapped like those of an untagged one -/
+  srcSkipEmbeds : List (List String) := []
+  destSkipEmbeds : List (List String) := []
   deriving Repr, Inhabited
 
 /-- parseManual, ref:02: an unexported field the read hook assigns on the receiver of a shoot-new type is keyed `SetX` —
@@ -831,6 +837,10 @@ def execFromP (inp : Input) (p : Plan) (t : Tables) (N : List String) (recv : Re
     | none =>
       let w0 ← execAlloc ws.ptrs t.srcAlloc {}
       execStmts rs ws N (inp.mapperPtr == some true) p.fromStmts w0)
+
+/-- mapper.tmpl, both paths of FromX: a non-nil receiver is written THROUGH (`*s = *_s_` after the constructor call, `*s = T{}`
+    otherwise) and `s` is returned — so the receiver itself holds the result, the first time and when the object is reused -/
+def fromWritesReceiver (_ : Input) : Bool := true
 
 def execFrom (inp : Input) (N : List String) (recv : Recv := .clean) (argNil : Bool := false) : Outcome :=
   execFromP inp (plan inp) (tables inp (plan inp)) N recv argNil
